@@ -20,7 +20,7 @@ ASSUMPTIONS = [
     'hash() of the Pattern dataclasses replaced by an id-blind structural hash in the harness process (equal patterns keep equal hashes)',
     'oracle = vf/oracle.py (own textbook implementation), executed symbolically alongside the code under test',
 ]
-OUTSIDE = 'patterns larger than the stated node bounds; app_ctx_holes always empty'
+OUTSIDE = 'patterns larger than the stated node bounds; app_ctx_holes always empty; the semantic substitution lemma only for concrete patterns, element-variable plugs for ESubst, carriers <= 2/3'
 EXPLANATION = (
     'bounded symbolic execution of the real pattern.py: shapes enumerated by forking, all variable/binder ids and '
     'constraint-list members symbolic; z3 decides the feasibility of every branch, an explored path on which the result '
@@ -37,6 +37,7 @@ def _profs() -> dict[str, Prof]:
     return {
         'concrete': Prof(symbol=1),
         'meta': Prof(symbol=1, metavars=2, subst=True, mv_cfgs=((0, 0, 0, 0), (1, 0, 0, 0), (0, 1, 0, 0))),
+        'sem': Prof(symbol=1),
         'metars': Prof(symbol=1, metavars=2, subst=True, mv_cfgs=((0, 0, 0, 0), (1, 0, 0, 0), (0, 1, 0, 0))),
         'meta0': Prof(symbol=1, metavars=2, subst=True),
         'notation': Prof(symbol=0, metavars=2, subst=False, mu=False, notations=(P.bot, P.neg, P._and, P._or)),
@@ -263,14 +264,87 @@ def h_inst_rs(ctx: Any, n: int, m: int, prof: str, twin: bool = False) -> None:
     ctx.check(O.eq(_norm(r), _norm(want)), f'C11.rs.instantiate[{tp[0]}]', lambda: f'{O.show(tp)} . { {k: O.show(v) for k, v in td.items()} } -> {O.show(r)}, textbook {O.show(want)}')
 
 
+def h_sem(ctx: Any, n: int, kind: str, impl: str, nmax: int = 2, twin: bool = False) -> None:
+    """substitution lemma of the finite-model semantics on concrete patterns:
+       [[phi[y/x]]]rho = [[phi]]rho[x := rho(y)]   and   [[phi[psi/X]]]rho = [[phi]]rho[X := [[psi]]rho]
+    whenever the substitution is capture-free (Rust: whenever the checker does not refuse)"""
+    import z3
+
+    from .. import mlsem, rsbridge, symx
+    from ..rsrt import Panic
+
+    pr = _prof('sem')
+    p = gens.gen(ctx, n, pr)
+    tp = O.expand(p)
+    x = ctx.int('x')
+    if kind == 'e':
+        plug = ('ev', ctx.int('y'))
+    else:
+        plug = O.expand(gens.gen_upto(ctx, 2, pr))
+    # mu must denote a least fixpoint: bodies positive in the bound variable
+    from .c01 import _wf
+
+    ctx.assume(_wf(tp) and _wf(plug))
+    if impl == 'rs':
+        mod = rsbridge.mod()
+        f = mod.apply_esubst if kind == 'e' else mod.apply_ssubst
+        try:
+            r = rsbridge.from_rs(f(rsbridge.to_rs(tp), x, rsbridge.to_rs(plug)))
+        except Panic:
+            ctx.count('rejected_for_capture')
+            if not twin:
+                return
+            ctx.assume(False)
+    else:
+        try:
+            want = O.subst_e(tp, x, plug, strict=True) if kind == 'e' else O.subst_s(tp, x, plug, strict=True)
+        except O.Capture:
+            ctx.count('capturing_not_in_scope')
+            if not twin:
+                return
+            ctx.assume(False)
+        pp = gens.from_term(plug)
+        r = O.expand(p.apply_esubst(x, pp) if kind == 'e' else p.apply_ssubst(x, pp))
+    ctx.count('reached')
+    ctx.sample({'pattern': O.show(tp), 'var': repr(x), 'plug': O.show(plug), 'result': O.show(r)})
+    if twin:
+        ctx.violation('TWIN')
+    ctx.check(_wf(r), f'C11.{impl}.sem.apply_{kind}subst.ill-formed-result', lambda: f'{O.show(tp)} [{O.show(plug)}/{x}] -> {O.show(r)}')
+    solver = ctx.solver if ctx.symbolic else z3.Solver()
+    for nn in range(1, nmax + 1):
+        M = mlsem.Model(nn, tag=f'_s{nn}')
+        lhs = M.eval(r)
+        if kind == 'e':
+            rhs = M.eval(tp, eenv=[(x, M.e_lookup(plug[1], []))])
+        else:
+            rhs = M.eval(tp, senv=[(x, M.eval(plug))])
+        solver.push()
+        try:
+            solver.add(z3.Or([a != b for a, b in zip(lhs, rhs)]))
+            solver.add(*M.side)
+            res = solver.check()
+            if ctx.symbolic:
+                ctx.stats.queries += 1
+            if res == z3.unknown:
+                raise symx.Inconclusive('z3 unknown in the substitution lemma')
+            if res == z3.sat:
+                m = solver.model()
+                vals = {name: m.eval(v, model_completion=True).as_long() for name, v, lo, hi in ctx.vars} if ctx.symbolic else None
+        finally:
+            solver.pop()
+        if res == z3.sat:
+            ctx.violation(f'C11.{impl}.sem.apply_{kind}subst.substitution-lemma-fails', f'{O.show(tp)} [{O.show(plug)}/{x}] -> {O.show(r)}: differs from the semantic substitution in a model with {nn} element(s)', values=vals)
+    ctx.count('lemma_holds')
+
+
 def levels(tier: str) -> list[dict]:
     M = 'vf.props.c11'
     L: list[dict] = []
     q = tier == 'quick'
-    for n in ([1, 2, 3, 4] if q else [1, 2, 3, 4, 5]):
+    for n in ([1, 2, 3] if q else [1, 2, 3, 4, 5]):
         for kind in 'es':
             L.append(dict(label=f'subst-{kind}/meta/n={n},plug<=2', module=M, fn='h_subst', kwargs=dict(n=n, m=2, prof='meta', kind=kind), budget_s=60 if q else 400, required=n <= 3))
-    for n in ([1, 2, 3, 4] if q else [1, 2, 3, 4, 5]):
+    for n in ([1, 2, 3] if q else [1, 2, 3, 4, 5]):
         for kind in 'es':
             L.append(dict(label=f'subst-{kind}/notation/n={n},plug<=2', module=M, fn='h_subst', kwargs=dict(n=n, m=2, prof='notation', kind=kind), budget_s=60 if q else 400, required=n <= 3))
     for n in ([1, 2, 3] if q else [1, 2, 3, 4]):
@@ -278,6 +352,10 @@ def levels(tier: str) -> list[dict]:
             L.append(dict(label=f'rust/subst-{kind}/meta/n={n},plug<=2', module=M, fn='h_subst_rs', kwargs=dict(n=n, m=2, prof='metars', kind=kind), budget_s=60 if q else 400, required=n <= 3, twin=(n == 2 and kind == 'e')))
     for n in ([1, 2, 3] if q else [1, 2, 3, 4]):
         L.append(dict(label=f'rust/inst/meta/n={n},val<=1', module=M, fn='h_inst_rs', kwargs=dict(n=n, m=1, prof='metars'), budget_s=60 if q else 400, required=n <= 3, twin=(n == 2)))
+    for impl in ('rs', 'py'):
+        for kind in 'es':
+            for n in ([2, 3] if q else [2, 3, 4]):
+                L.append(dict(label=f'semantic/{impl}/subst-{kind}/n={n},carrier<={2 if q else 3}', module=M, fn='h_sem', kwargs=dict(n=n, kind=kind, impl=impl, nmax=2 if q else 3), budget_s=60 if q else 600, required=n <= 3, twin=(n == 3 and impl == 'rs' and kind == 'e')))
     for n in ([2, 3, 4] if q else [2, 3, 4, 5]):
         for kind in 'es':
             L.append(dict(label=f'subst-{kind}/binder-notation/n={n},plug<=2', module=M, fn='h_subst', kwargs=dict(n=n, m=2, prof='binder', kind=kind), budget_s=60 if q else 400, required=n <= 3, twin=False))
